@@ -7,7 +7,9 @@
 
     * the counting stage `cues_outcomes` (`pipeline_counts`),
     * the `ndl.ndl` model (`pipeline_ndl`; counting, id maps, duplicate policy on
-      ids, binary chunk files, kernels, labelling — `ndlModel_eq_spec`), and its
+      ids, binary chunk files, kernels, labelling — `ndlCall_eq_spec`: the CALL,
+      hence `hne`: the filter leaves at least one event, else `ndl.ndl` raises
+      `IOError`; `hcfg`: legal chunking arguments `CfgOK`), and its
       agreement with `dict_ndl` on every pair of names (`pipeline_ndl_dict_agree`),
     * `activation()` on the learned weights, dict path and matrix path
       (`pipeline_activation_dict`, `pipeline_activation_matrix`).
@@ -20,6 +22,7 @@
 -/
 import PyndlProofs.Pipeline
 import PyndlProofs.NdlSpec
+import PyndlProofs.NdlCall
 import PyndlProofs.Activation
 
 set_option linter.unusedSectionVars false
@@ -129,23 +132,11 @@ theorem rwLearn_toS {R : Type} [CommRing R] (alpha β₁ β₂ lam : R) (es : Li
     names of the events in order of first occurrence. -/
 theorem ndlModel_labels {R : Type} [CommRing R] (magic version : Nat) (cfg : NdlCfg)
     (alpha β₁ β₂ lam : R) (es : List (Event String String)) (w : LW R) (k : Nat)
-    (h : ndlModel magic version cfg alpha β₁ β₂ lam none es = .ok (w, k)) :
+    (h : ndlCall magic version cfg alpha β₁ β₂ lam none es = .ok (w, k)) :
     w.cues = (countNames es).1 ∧ w.outcomes = (countNames es).2 := by
-  unfold ndlModel at h
-  rcases hcn : countNames es with ⟨cues, outs⟩
-  simp only [hcn] at h
-  split at h
-  · cases h
-  · split at h
-    · cases h
-    · split at h
-      · cases h
-      · split at h
-        · cases h
-        · simp only [Except.ok.injEq, Prod.mk.injEq] at h
-          obtain ⟨h1, _⟩ := h
-          subst h1
-          exact ⟨rfl, rfl⟩
+  have h' := ndlCall_ok _ _ _ _ _ _ _ _ _ _ h
+  rw [ndlModel_none] at h'
+  exact ndlCore_labels _ _ _ _ _ _ _ _ _ _ _ _ _ h'
 
 /-- **writer → filter → reader → `ndl.ndl`.**  The model of `ndl.ndl` on the
     events parsed from the filtered file (tokens as `String`s) succeeds, reports
@@ -154,26 +145,34 @@ theorem ndlModel_labels {R : Type} [CommRing R] (magic version : Nat) (cfg : Ndl
     filtered events. -/
 theorem pipeline_ndl {R : Type} [CommRing R]
     (magic version : Nat) (hm : magic < 4294967296) (hv : version < 4294967296)
-    (cfg : NdlCfg) (hper : 2 ≤ cfg.perFile) (hjob : 1 ≤ cfg.perJob) (alpha β₁ β₂ lam : R)
+    (cfg : NdlCfg) (alpha β₁ β₂ lam : R)
     (ca oa : Filter.SideArgs Char) (rc ro : Filter.Rule Char)
     (hc : Filter.selectRule ca = .ok rc) (ho : Filter.selectRule oa = .ok ro)
     (hrc : RuleImgWf rc) (hro : RuleImgWf ro) (hnil : RuleNilSafe ro)
     (chunk : Nat) (hn : 1 ≤ chunk)
     (es es' : List TEvent) (h : ∀ e ∈ es, EventWf e)
     (hp : applyPolicyAll cfg.policy ((es.filterMap (filterEvent rc ro)).map normalise) = some es')
-    (hfit : Fits32 (((es.filterMap (filterEvent rc ro)).map normalise).map toS)) :
+    (hfit : Fits32 (((es.filterMap (filterEvent rc ro)).map normalise).map toS))
+    (hcfg : CfgOK cfg (countNames (((es.filterMap (filterEvent rc ro)).map normalise).map toS)).2.length)
+    (hne : es.filterMap (filterEvent rc ro) ≠ []) :
     ∃ out parsed w,
       Filter.filterEventFile '\t' '_' ca oa chunk (readLines (renderFile false es)) = .ok out ∧
       parseFile 0 1 (unlines out) = some parsed ∧
       parsed = (es.filterMap (filterEvent rc ro)).map normalise ∧
-      ndlModel magic version cfg alpha β₁ β₂ lam none (parsed.map toS) = .ok (w, parsed.length) ∧
+      ndlCall magic version cfg alpha β₁ β₂ lam none (parsed.map toS) = .ok (w, parsed.length) ∧
       (∀ o c : String, w.get o c
           = rwLearn (fun _ => alpha) β₁ β₂ lam (fun _ _ => (0 : R)) (es'.map toS) o c) ∧
       (∀ o c : Str, w.get (String.ofList o) (String.ofList c)
           = rwLearn (fun _ => alpha) β₁ β₂ lam (wdAbs ([] : WDict Str Str R)) es' o c) := by
   obtain ⟨out, hout, _, hparse⟩ := writer_filter_reader ca oa rc ro hc ho hrc hro hnil chunk hn es h
-  obtain ⟨w, hw, hget⟩ := ndlModel_eq_spec magic version hm hv cfg hper hjob alpha β₁ β₂ lam
-    (((es.filterMap (filterEvent rc ro)).map normalise).map toS) (es'.map toS)
+  have hne' : ((es.filterMap (filterEvent rc ro)).map normalise).map toS ≠ [] := by
+    intro h0
+    apply hne
+    have := congrArg List.length h0
+    simp only [length_map, length_nil] at this
+    exact List.length_eq_zero_iff.mp this
+  obtain ⟨w, hw, hget⟩ := ndlCall_eq_spec magic version hm hv cfg alpha β₁ β₂ lam
+    (((es.filterMap (filterEvent rc ro)).map normalise).map toS) (es'.map toS) hne' hcfg
     (applyPolicyAll_toS cfg.policy _ es' hp) hfit
   refine ⟨out, _, w, hout, hparse, rfl, ?_, hget, ?_⟩
   · rw [hw, length_map]
@@ -188,25 +187,27 @@ theorem pipeline_ndl {R : Type} [CommRing R]
     `String.ofList` is a bijection). -/
 theorem pipeline_ndl_dict_agree {R : Type} [CommRing R]
     (magic version : Nat) (hm : magic < 4294967296) (hv : version < 4294967296)
-    (cfg : NdlCfg) (hper : 2 ≤ cfg.perFile) (hjob : 1 ≤ cfg.perJob) (alpha β₁ β₂ lam : R)
+    (cfg : NdlCfg) (alpha β₁ β₂ lam : R)
     (ca oa : Filter.SideArgs Char) (rc ro : Filter.Rule Char)
     (hc : Filter.selectRule ca = .ok rc) (ho : Filter.selectRule oa = .ok ro)
     (hrc : RuleImgWf rc) (hro : RuleImgWf ro) (hnil : RuleNilSafe ro)
     (chunk : Nat) (hn : 1 ≤ chunk)
     (es es' : List TEvent) (h : ∀ e ∈ es, EventWf e)
     (hp : applyPolicyAll cfg.policy ((es.filterMap (filterEvent rc ro)).map normalise) = some es')
-    (hfit : Fits32 (((es.filterMap (filterEvent rc ro)).map normalise).map toS)) :
+    (hfit : Fits32 (((es.filterMap (filterEvent rc ro)).map normalise).map toS))
+    (hcfg : CfgOK cfg (countNames (((es.filterMap (filterEvent rc ro)).map normalise).map toS)).2.length)
+    (hne : es.filterMap (filterEvent rc ro) ≠ []) :
     ∃ out parsed W w,
       Filter.filterEventFile '\t' '_' ca oa chunk (readLines (renderFile false es)) = .ok out ∧
       parseFile 0 1 (unlines out) = some parsed ∧
       parsed = (es.filterMap (filterEvent rc ro)).map normalise ∧
       dictNdl cfg.policy (fun _ => alpha) β₁ β₂ lam [] parsed = some W ∧
-      ndlModel magic version cfg alpha β₁ β₂ lam none (parsed.map toS) = .ok (w, parsed.length) ∧
+      ndlCall magic version cfg alpha β₁ β₂ lam none (parsed.map toS) = .ok (w, parsed.length) ∧
       (∀ o c : Str, w.get (String.ofList o) (String.ofList c) = wdAbs W o c) ∧
       (∀ o c : String, w.get o c = wdAbs W o.toList c.toList) := by
   obtain ⟨out, parsed, w, hout, hparse, hparsed, hw, _, hget⟩ :=
-    pipeline_ndl magic version hm hv cfg hper hjob alpha β₁ β₂ lam ca oa rc ro hc ho hrc hro hnil
-      chunk hn es es' h hp hfit
+    pipeline_ndl magic version hm hv cfg alpha β₁ β₂ lam ca oa rc ro hc ho hrc hro hnil
+      chunk hn es es' h hp hfit hcfg hne
   subst hparsed
   obtain ⟨W, hW, habs⟩ := Pyndl.dictNdl_eq_spec cfg.policy (fun _ => alpha) β₁ β₂ lam
     ([] : WDict Str Str R) _ es' hp
@@ -387,19 +388,21 @@ theorem cueIndices_all (ig : Bool) (labels cs : List String) (h : ∀ c ∈ cs, 
     outcome labelled `i`. -/
 theorem pipeline_activation_matrix {R : Type} [CommRing R]
     (magic version : Nat) (hm : magic < 4294967296) (hv : version < 4294967296)
-    (cfg : NdlCfg) (hper : 2 ≤ cfg.perFile) (hjob : 1 ≤ cfg.perJob) (alpha β₁ β₂ lam : R)
+    (cfg : NdlCfg) (alpha β₁ β₂ lam : R)
     (ca oa : Filter.SideArgs Char) (rc ro : Filter.Rule Char)
     (hc : Filter.selectRule ca = .ok rc) (ho : Filter.selectRule oa = .ok ro)
     (hrc : RuleImgWf rc) (hro : RuleImgWf ro) (hnil : RuleNilSafe ro)
     (chunk : Nat) (hn : 1 ≤ chunk)
     (es es' : List TEvent) (h : ∀ e ∈ es, EventWf e)
     (hp : applyPolicyAll cfg.policy ((es.filterMap (filterEvent rc ro)).map normalise) = some es')
-    (hfit : Fits32 (((es.filterMap (filterEvent rc ro)).map normalise).map toS)) (ig : Bool) :
+    (hfit : Fits32 (((es.filterMap (filterEvent rc ro)).map normalise).map toS))
+    (hcfg : CfgOK cfg (countNames (((es.filterMap (filterEvent rc ro)).map normalise).map toS)).2.length)
+    (hne : es.filterMap (filterEvent rc ro) ≠ []) (ig : Bool) :
     ∃ out parsed w,
       Filter.filterEventFile '\t' '_' ca oa chunk (readLines (renderFile false es)) = .ok out ∧
       parseFile 0 1 (unlines out) = some parsed ∧
       parsed = (es.filterMap (filterEvent rc ro)).map normalise ∧
-      ndlModel magic version cfg alpha β₁ β₂ lam none (parsed.map toS) = .ok (w, parsed.length) ∧
+      ndlCall magic version cfg alpha β₁ β₂ lam none (parsed.map toS) = .ok (w, parsed.length) ∧
       w.outcomes.Nodup ∧
       (∀ e ∈ parsed, ∃ e' ∈ es', applyPolicy cfg.policy e = some e' ∧
         actCues cfg.policy (toS e).cues = .ok (toS e').cues ∧
@@ -409,8 +412,8 @@ theorem pipeline_activation_matrix {R : Type} [CommRing R]
             = sumOver (rwLearn (fun _ => alpha) β₁ β₂ lam (wdAbs ([] : WDict Str Str R)) es'
                 (w.outcomes[i]).toList) e'.cues) := by
   obtain ⟨out, parsed, w, hout, hparse, hparsed, hw, _, hget⟩ :=
-    pipeline_ndl magic version hm hv cfg hper hjob alpha β₁ β₂ lam ca oa rc ro hc ho hrc hro hnil
-      chunk hn es es' h hp hfit
+    pipeline_ndl magic version hm hv cfg alpha β₁ β₂ lam ca oa rc ro hc ho hrc hro hnil
+      chunk hn es es' h hp hfit hcfg hne
   obtain ⟨hlc, hlo⟩ := ndlModel_labels magic version cfg alpha β₁ β₂ lam _ w _ hw
   have hnd : w.outcomes.Nodup := by rw [hlo]; exact nodup_dedupKeepFirst _
   refine ⟨out, parsed, w, hout, hparse, hparsed, hw, hnd, ?_⟩
@@ -538,7 +541,7 @@ theorem mem_countNames_toS (parsed : List TEvent) (x : Str) :
     witnesses (`α` constant, as `ndl.ndl` has it). -/
 theorem writer_filter_all {R : Type} [CommRing R]
     (magic version : Nat) (hm : magic < 4294967296) (hv : version < 4294967296)
-    (cfg : NdlCfg) (hper : 2 ≤ cfg.perFile) (hjob : 1 ≤ cfg.perJob) (alpha β₁ β₂ lam : R)
+    (cfg : NdlCfg) (alpha β₁ β₂ lam : R)
     (ca oa : Filter.SideArgs Char) (rc ro : Filter.Rule Char)
     (hc : Filter.selectRule ca = .ok rc) (ho : Filter.selectRule oa = .ok ro)
     (hrc : RuleImgWf rc) (hro : RuleImgWf ro) (hnil : RuleNilSafe ro)
@@ -546,6 +549,8 @@ theorem writer_filter_all {R : Type} [CommRing R]
     (es es' : List TEvent) (h : ∀ e ∈ es, EventWf e)
     (hp : applyPolicyAll cfg.policy ((es.filterMap (filterEvent rc ro)).map normalise) = some es')
     (hfit : Fits32 (((es.filterMap (filterEvent rc ro)).map normalise).map toS))
+    (hcfg : CfgOK cfg (countNames (((es.filterMap (filterEvent rc ro)).map normalise).map toS)).2.length)
+    (hne : es.filterMap (filterEvent rc ro) ≠ [])
     (n : Nat) (hn1 : 1 ≤ n) (ig : Bool) :
     ∃ out parsed r W w,
       -- the filter and the reader
@@ -559,7 +564,7 @@ theorem writer_filter_all {R : Type} [CommRing R]
       -- the two learners
       dictNdl cfg.policy (fun _ => alpha) β₁ β₂ lam [] parsed = some W ∧
       wdAbs W = rwLearn (fun _ => alpha) β₁ β₂ lam (wdAbs ([] : WDict Str Str R)) es' ∧
-      ndlModel magic version cfg alpha β₁ β₂ lam none (parsed.map toS) = .ok (w, parsed.length) ∧
+      ndlCall magic version cfg alpha β₁ β₂ lam none (parsed.map toS) = .ok (w, parsed.length) ∧
       (∀ o c : String, w.get o c = wdAbs W o.toList c.toList) ∧
       -- the labels of the matrix are the names the counting stage reports
       w.cues.Nodup ∧ w.outcomes.Nodup ∧
@@ -578,8 +583,8 @@ theorem writer_filter_all {R : Type} [CommRing R]
   obtain ⟨out, hout, _, hparse⟩ := writer_filter_reader ca oa rc ro hc ho hrc hro hnil chunk hn es h
   obtain ⟨r, hr, c1, c2, c3⟩ := Text.cuesOutcomes_exact n hn1 (unlines out) _ hparse
   obtain ⟨out2, parsed2, W, w, hout2, _, hparsed2, hW, hw, _, hagree⟩ :=
-    pipeline_ndl_dict_agree magic version hm hv cfg hper hjob alpha β₁ β₂ lam ca oa rc ro hc ho hrc hro
-      hnil chunk hn es es' h hp hfit
+    pipeline_ndl_dict_agree magic version hm hv cfg alpha β₁ β₂ lam ca oa rc ro hc ho hrc hro
+      hnil chunk hn es es' h hp hfit hcfg hne
   subst hparsed2
   obtain ⟨W2, hW2, habs⟩ := Pyndl.dictNdl_eq_spec cfg.policy (fun _ => alpha) β₁ β₂ lam
     ([] : WDict Str Str R) _ es' hp
@@ -620,7 +625,7 @@ theorem writer_filter_all {R : Type} [CommRing R]
     writes (`hes`). -/
 theorem pipeline_all {R : Type} [CommRing R]
     (magic version : Nat) (hm : magic < 4294967296) (hv : version < 4294967296)
-    (cfg : NdlCfg) (hper : 2 ≤ cfg.perFile) (hjob : 1 ≤ cfg.perJob) (alpha β₁ β₂ lam : R)
+    (cfg : NdlCfg) (alpha β₁ β₂ lam : R)
     (t : Create.Tables) (o : Create.Options)
     (hng : ∀ n, o.cue = .ngrams n → 1 ≤ n ∧ n ≤ 3) (rawLines : List (List Char))
     (hraw : ∀ raw ∈ rawLines, '\n' ∉ raw ∧ '\r' ∉ raw)
@@ -632,6 +637,8 @@ theorem pipeline_all {R : Type} [CommRing R]
     (es es' : List TEvent) (hes : es = (Create.createEvents t o rawLines).map toTEvent)
     (hp : applyPolicyAll cfg.policy ((es.filterMap (filterEvent rc ro)).map normalise) = some es')
     (hfit : Fits32 (((es.filterMap (filterEvent rc ro)).map normalise).map toS))
+    (hcfg : CfgOK cfg (countNames (((es.filterMap (filterEvent rc ro)).map normalise).map toS)).2.length)
+    (hne : es.filterMap (filterEvent rc ro) ≠ [])
     (n : Nat) (hn1 : 1 ≤ n) (ig : Bool) :
     ∃ out parsed r W w,
       Filter.filterEventFile '\t' '_' ca oa chunk (readLines (renderFile false es)) = .ok out ∧
@@ -642,7 +649,7 @@ theorem pipeline_all {R : Type} [CommRing R]
       (∀ x, cGet r.outcomes x = (parsed.map (fun e => e.outcomes.count x)).sum) ∧
       dictNdl cfg.policy (fun _ => alpha) β₁ β₂ lam [] parsed = some W ∧
       wdAbs W = rwLearn (fun _ => alpha) β₁ β₂ lam (wdAbs ([] : WDict Str Str R)) es' ∧
-      ndlModel magic version cfg alpha β₁ β₂ lam none (parsed.map toS) = .ok (w, parsed.length) ∧
+      ndlCall magic version cfg alpha β₁ β₂ lam none (parsed.map toS) = .ok (w, parsed.length) ∧
       (∀ o c : String, w.get o c = wdAbs W o.toList c.toList) ∧
       w.cues.Nodup ∧ w.outcomes.Nodup ∧
       (∀ x : Str, String.ofList x ∈ w.cues ↔ 0 < cGet r.cues x) ∧
@@ -661,7 +668,7 @@ theorem pipeline_all {R : Type} [CommRing R]
     rw [hes] at he
     obtain ⟨ev, hev, rfl⟩ := mem_map.mp he
     exact createEvents_eventWf t o hng rawLines hraw hlower ev hev
-  exact writer_filter_all magic version hm hv cfg hper hjob alpha β₁ β₂ lam ca oa rc ro hc ho hrc hro
-    hnil chunk hn es es' hwf hp hfit n hn1 ig
+  exact writer_filter_all magic version hm hv cfg alpha β₁ β₂ lam ca oa rc ro hc ho hrc hro
+    hnil chunk hn es es' hwf hp hfit hcfg hne n hn1 ig
 
 end Pyndl.Pipeline
